@@ -43,6 +43,8 @@ func main() {
 	tags := flag.String("tags", "", "build tags")
 	list := flag.Bool("list", false, "list functions")
 	obls := flag.Bool("obls", false, "print every obligation (rule | key | status)")
+	gstats := flag.String("guardstats", "-", "print lock classes held at the accesses of fields matching the substring (discovery aid)")
+	dumpView := flag.String("dumpview", "", "write the files of the inlined view into this directory and exit (debugging aid)")
 	writeBase := flag.Bool("write-baseline", false, "write <verif>/baseline_symbols.json from the current tree and exit")
 	flag.Parse()
 	if *tier == "" {
@@ -93,6 +95,11 @@ func main() {
 	for _, n := range P.Renames {
 		fmt.Println("renamed symbol: " + n)
 	}
+	if os.Getenv("JIVACHECK_INVIEW") != "" {
+		if Q, _ := inlinedView(P); Q != nil {
+			P = Q
+		}
+	}
 	if *list {
 		for _, f := range P.AllFns {
 			fmt.Println(FnName(f))
@@ -101,6 +108,23 @@ func main() {
 	}
 	if *dump != "" {
 		dumpFns(P, *dump)
+		return
+	}
+	if *dumpView != "" {
+		Q, notes := inlinedView(P)
+		for _, n := range notes {
+			fmt.Println(n)
+		}
+		if Q != nil {
+			os.MkdirAll(*dumpView, 0o755)
+			for f, b := range Q.Overlay {
+				os.WriteFile(filepath.Join(*dumpView, strings.ReplaceAll(strings.TrimPrefix(f, *repo+"/"), "/", "__")), b, 0o644)
+			}
+		}
+		return
+	}
+	if *gstats != "-" {
+		guardStats(P, *gstats)
 		return
 	}
 	spec, ok := registry[*prop]
@@ -113,10 +137,7 @@ func main() {
 		fmt.Printf("VIOLATION property=%s replay=none\n  cannot read known_findings.json: %v\n", *prop, err)
 		os.Exit(1)
 	}
-	c := newCtx(P, *prop, *tier, findings)
-	for _, r := range spec.Rules {
-		runRule(c, r)
-	}
+	c, viewInfo := evaluate(P, *prop, *tier, spec, findings)
 	if *obls {
 		for _, o := range c.Obls {
 			fmt.Printf("OBL %s | %s | %s\n", o.Rule, o.Key, o.Status)
@@ -127,6 +148,9 @@ func main() {
 	if len(P.Renames) > 0 {
 		extra["renamed_symbols"] = P.Renames
 	}
+	if viewInfo != nil {
+		extra["inlined_view"] = viewInfo
+	}
 	if *tier == "thorough" {
 		// (a) fault-injection build configuration
 		clearCaches()
@@ -134,10 +158,7 @@ func main() {
 		if err != nil {
 			c.Undecided("CONFIG-debug", "load -tags debug", "", "the fault-injection build configuration does not load: "+firstLines(err.Error(), 3))
 		} else {
-			cd := newCtx(PD, *prop, *tier, findings)
-			for _, r := range spec.Rules {
-				runRule(cd, r)
-			}
+			cd, _ := evaluate(PD, *prop, *tier, spec, findings)
 			n, bad := 0, 0
 			for _, o := range cd.Obls {
 				if debugInsensitive(o.Rule) {
